@@ -771,6 +771,9 @@ class Model:
             Self: The instance of the model with the parameter removed.
 
         """
+        if name not in self._parameters:
+            msg = f"{name!r} not found in parameters"
+            raise KeyError(msg)
         self._remove_id(name=name)
         self._parameters.pop(name)
         return self
@@ -927,6 +930,14 @@ class Model:
 
         """
         value = self._parameters[name].value if initial_value is None else initial_value
+        if stoichiometries is not None:
+            for rxn_name in stoichiometries:
+                if rxn_name not in self._reactions and not any(
+                    surrogate.stoichiometries.get(rxn_name)
+                    for surrogate in self._surrogates.values()
+                ):
+                    msg = f"Reaction '{rxn_name}' not found in reactions or surrogates"
+                    raise KeyError(msg)
         self.remove_parameter(name)
         self.add_variable(name, value)
 
@@ -1123,6 +1134,9 @@ class Model:
             Self: The instance of the model with the variable removed.
 
         """
+        if name not in self._variables:
+            msg = f"'{name}' not found in variables"
+            raise KeyError(msg)
         if remove_stoichiometries:
             for rxn in self._reactions.values():
                 if name in rxn.stoichiometry:
@@ -1439,6 +1453,9 @@ class Model:
             Self: The instance of the model with the derived attribute removed.
 
         """
+        if name not in self._derived:
+            msg = f"'{name}' not found in derived"
+            raise KeyError(msg)
         self._remove_id(name=name)
         self._derived.pop(name)
         return self
@@ -1671,6 +1688,9 @@ class Model:
             Self: The instance of the model with the reaction removed.
 
         """
+        if name not in self._reactions:
+            msg = f"'{name}' not found in reactions"
+            raise KeyError(msg)
         self._remove_id(name=name)
         self._reactions.pop(name)
         return self
@@ -1770,6 +1790,9 @@ class Model:
             Self: The instance of the class after the readout has been removed.
 
         """
+        if name not in self._readouts:
+            msg = f"'{name}' not found in readouts"
+            raise KeyError(msg)
         self._remove_id(name=name)
         del self._readouts[name]
         return self
@@ -1803,7 +1826,15 @@ class Model:
             Self: The current instance with the added surrogate model.
 
         """
-        self._insert_id(name=name, ctx="surrogate")
+        # Insert ids: all of them or, if one is rejected, none
+        ids = self._ids.copy()
+        try:
+            self._insert_id(name=name, ctx="surrogate")
+            for output in surrogate.outputs if outputs is None else outputs:
+                self._insert_id(name=output, ctx="surrogate")
+        except (KeyError, NameError):
+            self._ids = ids
+            raise
 
         # Update surrogate if necessary
         if args is not None:
@@ -1812,10 +1843,6 @@ class Model:
             surrogate.outputs = outputs
         if stoichiometries is not None:
             surrogate.stoichiometries = stoichiometries
-
-        # Insert ids
-        for output in surrogate.outputs:
-            self._insert_id(name=output, ctx="surrogate")
 
         self._surrogates[name] = surrogate
         return self
@@ -1852,6 +1879,17 @@ class Model:
         if surrogate is None:
             surrogate = self._surrogates[name]
 
+        # Update ids first (old outputs out, new outputs in): all or nothing
+        ids = self._ids.copy()
+        try:
+            for i in self._surrogates[name].outputs:
+                self._remove_id(name=i)
+            for i in surrogate.outputs if outputs is None else outputs:
+                self._insert_id(name=i, ctx="surrogate")
+        except (KeyError, NameError):
+            self._ids = ids
+            raise
+
         # Update existing / passed surrogate (other args always take precendece)
         if args is not None:
             surrogate.args = args
@@ -1859,12 +1897,6 @@ class Model:
             surrogate.outputs = outputs
         if stoichiometries is not None:
             surrogate.stoichiometries = stoichiometries
-
-        # Update ids
-        for i in self._surrogates[name].outputs:
-            self._remove_id(name=i)
-        for i in surrogate.outputs:
-            self._insert_id(name=i, ctx="surrogate")
 
         self._surrogates[name] = surrogate
         return self
@@ -1880,6 +1912,9 @@ class Model:
             Self: The instance of the model with the specified surrogate model removed.
 
         """
+        if name not in self._surrogates:
+            msg = f"Surrogate '{name}' not found in model"
+            raise KeyError(msg)
         self._remove_id(name=name)
         surrogate = self._surrogates.pop(name)
         for output in surrogate.outputs:
@@ -1939,12 +1974,18 @@ class Model:
     @_invalidate_cache
     def update_data(self, name: str, data: pd.Series | pd.DataFrame) -> Self:
         """Update named data set."""
+        if name not in self._data:
+            msg = f"'{name}' not found in data"
+            raise KeyError(msg)
         self._data[name] = data
         return self
 
     @_invalidate_cache
     def remove_data(self, name: str) -> Self:
         """Remove data set from model."""
+        if name not in self._data:
+            msg = f"'{name}' not found in data"
+            raise KeyError(msg)
         self._remove_id(name=name)
         self._data.pop(name)
         return self
